@@ -3,6 +3,8 @@ import Gopki.Lemmas.IntLemmas
 import Gopki.Model.Db
 import Gopki.Generated.Facts
 import Gopki.Lemmas.TimeRound
+import Gopki.Lemmas.CertWf2
+import Gopki.Lemmas.CertRound
 /-! # C02 — emitted certificates are canonical-DER, conformant X.509v3 structures -/
 namespace C02
 open Der Asn1 Gen Config
@@ -114,5 +116,90 @@ theorem C02_time_roundtrip (c : Civil) (hy : 0 ≤ c.year ∧ c.year ≤ 9999) (
     refine ⟨0x18, _, h1, h2, ?_, by simp [hu]⟩
     simp only [X509.primCanonical]
     simp [h2]
+
+/-- **the model's to-be-signed certificate is canonical DER for all inputs**: whatever configuration, key, serial,
+    names, dates, unique ids and extension list went into it — if the model produces a TBSCertificate at all
+    (`tbsTlv` rejects what `encoding/asn1` rejects: invalid OIDs, years outside 0…9999) then every tag in it is a
+    valid low-tag-form identifier with the right constructed bit, every INTEGER, BOOLEAN, BIT STRING, OID and time
+    is in canonical form, and — its encoding being shorter than 2^64 octets — it is well formed, so the strict
+    decoder reads exactly this value back from its encoding (and re-encoding reproduces the bytes,
+    `C02_reencode_identity`).  `TbsOk` asks: OID arcs below 2^63, AlgorithmIdentifier parameters that are canonical
+    values themselves (NULL, a curve OID), a byte-aligned key bit string. -/
+theorem C02_model_tbs_canonical (t : Gen.Tbs) (v : Tlv) (h : tbsTlv t = .ok v) (ht : CertWf.TbsOk t)
+    (hl : v.enc.length < 2 ^ 64) :
+    v.wf = true ∧ X509.canonical v = true ∧ X509.decodeDer v.enc = some v := by
+  obtain ⟨h1, h2⟩ := CertWf.good_tbs t v h ht
+  have hwf := wf_of_tagsOk v h1 hl
+  exact ⟨hwf, h2, X509.decodeDer_enc v hwf⟩
+
+/-- the same for the whole certificate: signed body, outer AlgorithmIdentifier, byte-aligned signature -/
+theorem C02_model_cert_canonical (t : Gen.Tbs) (tv : Tlv) (outer : AlgId) (sig : Bytes) (v : Tlv)
+    (htbs : tbsTlv t = .ok tv) (ht : CertWf.TbsOk t) (ha : CertWf.AlgOk outer)
+    (h : certTlv ⟨tv, outer, ⟨sig, 8 * sig.length⟩⟩ = .ok v) (hl : v.enc.length < 2 ^ 64) :
+    v.wf = true ∧ X509.canonical v = true ∧ X509.decodeDer v.enc = some v := by
+  obtain ⟨h1, h2⟩ := CertWf.good_cert ⟨tv, outer, ⟨sig, 8 * sig.length⟩⟩ v h (CertWf.good_tbs t tv htbs ht) ha rfl
+  have hwf := wf_of_tagsOk v h1 hl
+  exact ⟨hwf, h2, X509.decodeDer_enc v hwf⟩
+
+/-- **an independent reader accepts the model's certificate and reads the same fields back**, for all inputs: the
+    reader of `Spec/X509.lean` (written from RFC 5280's ASN.1, sharing no code with the encoder) applied to the
+    certificate the model builds returns the version, the serial number, inner and outer AlgorithmIdentifier (OID and
+    parameters), issuer and subject names (every attribute type and value), both validity instants, the public key
+    algorithm and bits, both unique ids and the extension list (OID, critical flag, value, order) that went in -/
+theorem C02_model_cert_roundtrip (t : Gen.Tbs) (tv : Tlv) (outer : AlgId) (sig : BitString) (v : Tlv)
+    (htbs : tbsTlv t = .ok tv) (ht : CertWf.TbsOk t) (ho : CertWf.OidOk outer.oid) (h : certTlv ⟨tv, outer, sig⟩ = .ok v) :
+    ∃ c a, t.sigAlg = some a ∧ X509.decCertificate v = some c ∧ CertRound.Fields t a c.tbs ∧ c.tbs.raw = tv ∧
+      c.sigAlg.oid = outer.oid ∧ c.sigAlg.params = outer.params ∧ c.signature = bitStringContent sig.bytes sig.bitLength :=
+  CertRound.decCertificate_certTlv t tv outer sig v htbs ht ho h
+
+/-- what `signBody` puts into the algorithm identifiers satisfies `AlgOk`: the whole table -/
+theorem C02_sigAlg_ok : ∀ alg ∈ List.range 8, ∀ a, sigAlgId alg = some a → CertWf.AlgOk a := by
+  intro alg halg a ha
+  have hcases : alg = 0 ∨ alg = 1 ∨ alg = 2 ∨ alg = 3 ∨ alg = 4 ∨ alg = 5 ∨ alg = 6 ∨ alg = 7 := by
+    simp only [List.mem_range] at halg; omega
+  rcases hcases with rfl | rfl | rfl | rfl | rfl | rfl | rfl | rfl <;>
+    (simp only [sigAlgId, sigAlgTable, List.getElem?_cons_zero, List.getElem?_cons_succ, Option.some.injEq] at ha
+     subst ha
+     refine ⟨by intro x hx; simp only [List.mem_cons, List.not_mem_nil, or_false] at hx; omega, ?_⟩
+     intro p hp
+     first
+       | (simp only [Option.some.injEq] at hp; subst hp; exact CertWf.good_null)
+       | simp at hp)
+
+/-- non-vacuity: a self-signed P-256 body (version 3, serial 5, CN=a, 2026…2031, one critical extension) is
+    produced by the model and meets `TbsOk` -/
+def exampleTbs : Gen.Tbs :=
+  { version := 2, serial := 5, sigAlg := some ⟨[1,2,840,10045,4,3,2], none⟩, issuer := [⟨[2,5,4,3], .str "a"⟩],
+    notBefore := 1790553600, notAfter := 1948320000, subject := [⟨[2,5,4,3], .str "a"⟩],
+    spki := ⟨⟨[1,2,840,10045,2,1], some (tOid [1,2,840,10045,3,1,7])⟩, ⟨[4, 1, 2], 24⟩⟩,
+    issuerUid := none, subjectUid := some ⟨[], 0⟩, exts := [⟨[2,5,29,19], true, [0x30, 0]⟩] }
+
+example : (tbsTlv exampleTbs).toBool = true := by decide
+
+example : CertWf.TbsOk exampleTbs where
+  sigAlg := by
+    intro a ha
+    simp only [exampleTbs, Option.some.injEq] at ha
+    subst ha
+    exact ⟨by intro x hx; simp only [List.mem_cons, List.not_mem_nil, or_false] at hx; omega, by intro p hp; simp at hp⟩
+  issuer := by
+    intro a ha
+    simp only [exampleTbs, List.mem_cons, List.not_mem_nil, or_false] at ha
+    subst ha; intro x hx; simp only [List.mem_cons, List.not_mem_nil, or_false] at hx; omega
+  subject := by
+    intro a ha
+    simp only [exampleTbs, List.mem_cons, List.not_mem_nil, or_false] at ha
+    subst ha; intro x hx; simp only [List.mem_cons, List.not_mem_nil, or_false] at hx; omega
+  spkiAlg := by
+    refine ⟨by intro x hx; simp only [exampleTbs, List.mem_cons, List.not_mem_nil, or_false] at hx; omega, ?_⟩
+    intro p hp
+    simp only [exampleTbs, Option.some.injEq] at hp
+    subst hp
+    exact CertWf.good_oid _ (by decide) (by intro x hx; simp only [List.mem_cons, List.not_mem_nil, or_false] at hx; omega)
+  spkiBits := rfl
+  exts := by
+    intro e he
+    simp only [exampleTbs, List.mem_cons, List.not_mem_nil, or_false] at he
+    subst he; intro x hx; simp only [List.mem_cons, List.not_mem_nil, or_false] at hx; omega
 
 end C02
